@@ -46,6 +46,11 @@ GROUPS = [
     ['{"a": [(0.0/0.0)]}'],
     ["{(0.0/0.0): 1}", "{(0.0/0.0): 1.0}"],
     ["V((0.0/0.0), 1)", "V((0.0/0.0), 1.0)"],
+    # complex numbers with a non-zero imaginary part whose real parts are zeros of opposite sign are equal
+    ["(-1i)", "(0 - 1i)", "(1i*1i*1i)"],
+    ["(2i)", "(-(0 - 2i))"],
+    ["[(-1i)]", "[(0 - 1i)]"],
+    ["(1.5+2i)", "((3/2)+2i)"],
 ]
 ALL_KEYS = [k for g in GROUPS for k in g]
 GROUP_OF = {k: gi for gi, g in enumerate(GROUPS) for k in g}
